@@ -41,7 +41,7 @@ PRE, PRE_GEN = _build_pre()
 
 def script(ix, compound):
     """thorough: append; default (small-segment) merge; delete-only; optimize; CLEAR
-    quick: append; delete-only; optimize (which merges everything)"""
+    quick: append; delete-only; optimize (which merges everything); empty commit"""
     w = ix.writer(compound=compound)
     w.add_document(k=u"e", t=u"echo alfa", n=5)
     w.commit(merge=False)
@@ -55,6 +55,10 @@ def script(ix, compound):
     w = ix.writer(compound=compound)
     w.add_document(k=u"g", t=u"golf", n=7)
     w.commit(optimize=True)
+    # a commit that changes no segment: the generation advances and a refreshed reader reuses the segment reader as it is
+    # (seed C03-4: the reused reader kept its old generation, so up_to_date() stayed False)
+    w = ix.writer(compound=compound)
+    w.commit(merge=False)
     if THOROUGH:
         w = ix.writer(compound=compound)
         w.add_document(k=u"h", t=u"hotel", n=8)
@@ -242,7 +246,7 @@ def _mk(kind, compound, mmap, with_refresh):
     name = "c03_hold_%s_%s_%s%s" % (kind, "cmp" if compound else "loose", "mmap" if mmap else "nommap", "_refresh" if with_refresh else "")
 
     if with_refresh:
-        @h(bounds="writer script (quick: append, delete-only, optimize; thorough: append, small-merge, delete-only, optimize, CLEAR) on %s compound=%s mmap=%s; searcher opened before op k1, "
+        @h(bounds="writer script (quick: append, delete-only, optimize, empty commit; thorough: append, small-merge, delete-only, optimize, CLEAR) on %s compound=%s mmap=%s; searcher opened before op k1, "
                   "probed and then refreshed+probed before op k3>=k1; every pair k1<=k3 over all storage operations of the script with (k3-k1) %% %d == 0 "
                   "(quick 4, thorough 1)" % (kind, compound, mmap, STRIDE),
            funcs=["whoosh.index.FileIndex.reader", "whoosh.index.FileIndex._reader", "whoosh.searching.Searcher.refresh", "whoosh.searching.Searcher.up_to_date",
@@ -260,7 +264,7 @@ def _mk(kind, compound, mmap, with_refresh):
             with notrace():
                 return run_hold(kind, compound, mmap, k1, k3, k3)
     else:
-        @h(bounds="writer script (quick: append, delete-only, optimize; thorough: append, small-merge, delete-only, optimize, CLEAR) on %s compound=%s mmap=%s; searcher opened before op k1 and "
+        @h(bounds="writer script (quick: append, delete-only, optimize, empty commit; thorough: append, small-merge, delete-only, optimize, CLEAR) on %s compound=%s mmap=%s; searcher opened before op k1 and "
                   "probed (all read APIs, up_to_date) before op k2, every pair k1<=k2 over all storage operations of the script with (k2-k1) %% %d == 0 "
                   "(quick 4, thorough 1)" % (kind, compound, mmap, STRIDE),
            funcs=["whoosh.index.FileIndex.reader", "whoosh.index.FileIndex._reader", "whoosh.searching.Searcher.up_to_date",
